@@ -16,7 +16,8 @@ Kind tokens `<kind>`: `dos32` | `dos33` | `a400` | `a800` | `other`, or `L:<NAME
   `read_sector(c,h,s)` shows the data: `ok c.h.s.off.len,…`
 * `sector <do|d13|img> <kind> <c> <h> <s>` → byte offset of a physical sector in `to_bytes()` `ok off.len`
 * `sector <nib|imd|td0> <kind> <c> <h> <s>` → `ok len` if the sector exists
-Every answer is `ok …`, `err` or `panic`.
+Every answer is `ok …` or `refused`: the model distinguishes `err` from `panic`, but C07 does not constrain *how* an
+address outside the disk is rejected (that is C08/C12), so both sides of the comparison report `refused`.
 -/
 namespace A2Verif.Drv.C07
 open A2Verif.Model.AddrMap
@@ -27,8 +28,8 @@ def dots (xs : List Nat) : String := ".".intercalate (xs.map toString)
 
 def render {α : Type} (f : α → String) : Out α → String
   | ok a => "ok " ++ f a
-  | err => "err"
-  | .panic => "panic"
+  | err => "refused"
+  | .panic => "refused"
 
 def commas (xs : List String) : String := if xs.isEmpty then "-" else ",".intercalate xs
 
